@@ -17,11 +17,11 @@ P = {
          "trusted: Str/Value mirrors with byte-content equality and lexicographic order; default Props::get (closure capturing &mut) is an external_body stub under the trait contract, exercised by a BOUNDED Kani harness (3 entries, concrete keys) as is dyn ErasedProps; Dedup::for_each (closure capturing &mut a BTreeMap; a Kani harness timed out), std maps, macro expansion not covered",
          "contract-based deductive verification (Verus on mechanically extracted functions, ghost call traces)", "8 C02"),
  "C03": (True, "proof",
-         "Kani proves on the real Frame/FrameFuture/Ctxt forwarders (oracle context logging every operation) enter-scope-exit-close exactly once in order for call/enter/with/poll, default open_push/open_disabled, that every forwarding / erased context dispatches open_root/open_push/open_disabled to the same method, and the erased paths incl. ErasedFrame inline and boxed storage; Verus proves on the real thread_local_ctxt.rs (thread-local as a ghost map, R15) that current/swap/enter/exit meet the swap contract, open_root = own props first-wins, open_push = own over what was current, and the stack-discipline lemma over that contract; ctxt_id = exactly one critical section c -> c+1 returning c, with the lemma that ids are pairwise distinct (sync_effects)",
+         "Kani proves on the real Frame/FrameFuture/Ctxt forwarders (oracle context logging every operation) enter-scope-exit-close exactly once in order for call/enter/with/poll, default open_push/open_disabled, that every forwarding / erased context dispatches open_root/open_push/open_disabled to the same method, and the erased paths incl. ErasedFrame inline and boxed storage; Verus proves on the real thread_local_ctxt.rs (thread-local as a ghost map, R15) that current/swap/enter/exit meet the swap contract, open_root = own props first-wins, open_push = own over what was current, and the stack-discipline lemma over that contract; ctxt_id = exactly one critical section c -> c+1 returning c, with the lemma that ids are pairwise distinct (sync_effects); Kani: the guard's Drop exits the frame also when std::thread::panicking() (stubbed to an arbitrary boolean); thread-local typed id fast path and shared() == id 0 != new()",
          "NOT covered (stated): isolation between threads (std thread_local!), panic unwinding (two seeded changes that drop the RAII guard are missed), RefCell re-entrancy; HashMap/Entry/Arc::make_mut by assumed specs",
          "contract-based deductive verification (Kani oracle-context contracts; Verus lemma over the swap contract)", "8 C03"),
  "C04": (True, "proof",
-         "Verus proves on the real SpanCtxt::current/new_child/new_root, TraceId/SpanId::random, Props for SpanCtxt and SpanGuard::new/push_ctxt: child ids (trace inherited, parent = enclosing span id), filter shown the span event with ids, exactly one Frame::push iff enabled else exactly one Frame::disabled, is_enabled == verdict; read-back lemma; the incoming-id casts (FromValue for TraceId/SpanId: typed, then integer, then hex text - the order is the contract); the effective-filter selection FirstDefined::matches",
+         "Verus proves on the real SpanCtxt::current/new_child/new_root, TraceId/SpanId::random, Props for SpanCtxt and SpanGuard::new/push_ctxt: child ids (trace inherited, parent = enclosing span id), filter shown the span event with ids, exactly one Frame::push iff enabled else exactly one Frame::disabled, is_enabled == verdict; read-back lemma; the incoming-id casts (FromValue for TraceId/SpanId: typed, then integer, then hex text - the order is the contract); the effective-filter selection FirstDefined::matches; __private_begin_span: exactly one SpanGuard::new with the runtime's ctxt/clock/rng and the FirstDefined(when, runtime filter) filter on the event with the level appended; ids stored in the thread-local frame read back as the same typed ids",
          "per-step contracts; the tree is the (stated) induction; Rng, Ctxt::with_current, Filter relational mirrors; thread hand-off and poll interleavings reduce to C03's frame contract",
          "contract-based deductive verification (Verus on mechanically extracted functions)", "8 C04"),
  "C06": (True, "proof",
@@ -29,51 +29,51 @@ P = {
          "trusted: std::sync::Mutex mutual exclusion (lock model R4, poisoning ignored), Watchers callbacks (boxed FnOnce) as ghost id lists, catch_unwind really catches (R8), processor behaviour",
          "contract-based deductive verification (Verus critical-section contracts + inductive history lemma)", "8 C06"),
  "C07": (True, "proof",
-         "same units as C06: when_flushed fires at once iff not in a batch and (empty or closed) else travels with the pending batch; watchers are notified only after the retry loop exits; flush-soundness lemma over the transition system; OTLP blocking_flush = conjunction over configured signals; file on_batch returns Ok only after flush and sync_all; OtlpTransport::send Ok => every request acknowledged exactly once",
+         "same units as C06: when_flushed fires at once iff not in a batch and (empty or closed) else travels with the pending batch; watchers are notified only after the retry loop exits; flush-soundness lemma over the transition system; OTLP blocking_flush = conjunction over configured signals; file on_batch returns Ok only after flush and sync_all; OtlpTransport::send Ok => every request acknowledged exactly once; the real condvar loop of Trigger::wait_timeout (true only if the flag was seen set under the lock; every wait gets exactly the remaining time; spurious wake-ups allowed); HttpResponse::stream_payload reads the response body to its end and propagates every read error (gRPC trailers are always seen); FileSetInner::emit = exactly one non-blocking send",
          "trusted: as C06; condvar/oneshot trigger side; OS durability",
          "contract-based deductive verification (Verus)", "8 C07"),
  "C08": (True, "proof",
-         "Verus proves the retry loop terminates with at most max+1 attempts for every outcome sequence (success, permanent/retryable failure, panic before or inside the future), back-off bounded and non-decreasing, budget reset per batch, return iff closed and empty; Retry/Delay/Capacity contracts; Drop for Sender / Receiver leave is_open == false unconditionally (lock model: try_lock may fail); Trigger::trigger = set flag then notify_all",
+         "Verus proves the retry loop terminates with at most max+1 attempts for every outcome sequence (success, permanent/retryable failure, panic before or inside the future), back-off bounded and non-decreasing, budget reset per batch, return iff closed and empty; Retry/Delay/Capacity contracts; Drop for Sender / Receiver leave is_open == false unconditionally (lock model: try_lock may fail); Trigger::trigger = set flag then notify_all; the real Trigger::wait_timeout loop incl. Instant/Duration arithmetic with its panic conditions as preconditions (no overflow for arbitrary timeouts)",
          "wall-clock bounds, tokio contexts, thread join not applicable; Duration arithmetic via three trusted facts",
          "contract-based deductive verification (Verus, decreases clauses)", "8 C08"),
  "C12": (True, "proof",
-         "Verus proves OtlpTransport::send (real async body): Ok => every request of the batch acknowledged exactly once; Err => the retryable channel holds exactly the unacknowledged requests, failed one included; OTLP Channel::push keeps the concatenated event sequence and starts a new request iff none or size limit reached; EncodedPayload::len in bytes == content-length, HttpContent::gzip feeds the encoder exactly the payload bytes once (write-fault model for the flate2 encoder), gRPC frame = flag byte + big-endian u32 length + payload, HTTP / grpc-status decisions, HttpConnection poison logic",
+         "Verus proves OtlpTransport::send (real async body): Ok => every request of the batch acknowledged exactly once; Err => the retryable channel holds exactly the unacknowledged requests, failed one included; OTLP Channel::push keeps the concatenated event sequence and starts a new request iff none or size limit reached; EncodedPayload::len in bytes == content-length, HttpContent::gzip feeds the encoder exactly the payload bytes once (write-fault model for the flate2 encoder), gRPC frame = flag byte + big-endian u32 length + payload, HTTP / grpc-status decisions, HttpConnection poison logic; one receiver task per configured signal wired to that signal's transport (spawn_inner regions)",
          "trusted: send_batch abstracted by its result, EncodedScopeItems as push history, flate2 / bytes::Buf mirrors; hyper transport and Body::poll_frame not applicable",
          "contract-based deductive verification (Verus on mechanically extracted functions)", "8 C12"),
  "C13": (True, "other",
-         "panic-freedom only: Verus proves every method of the sval::Stream impl for AnyStream total against a hand-declared Stream mirror; the six todo!() for non-string map keys fail and are the known finding F11; well-formedness / faithfulness of the output is produced by sval_json/sval_protobuf and is not applicable; beyond panic-freedom: stream_attributes and the metrics attribute collector enumerate props.dedup() (unique keys, first value - the latter failed on the pinned tree: F16, repaired), the per-key decisions of the log-record and span visitors (which well-known keys are lifted, err -> exception.*), metric point builders panic-free",
+         "panic-freedom only: Verus proves every method of the sval::Stream impl for AnyStream total against a hand-declared Stream mirror; the six todo!() for non-string map keys fail and are the known finding F11; well-formedness / faithfulness of the output is produced by sval_json/sval_protobuf and is not applicable; beyond panic-freedom: stream_attributes and the metrics attribute collector enumerate props.dedup() (unique keys, first value - the latter failed on the pinned tree: F16, repaired), the per-key decisions of the log-record and span visitors (which well-known keys are lifted, err -> exception.*), metric point builders panic-free; the rolling-file default writer's record shape (ts/ts_start, mdl, msg, tpl, then props.dedup()); binary ids for protobuf and text ids for JSON",
          "partial: only emit's own code; sval default methods not mirrored; JSON/protobuf well-formedness is the dependencies'; f64 sums out of reach",
          "contract-based deductive verification (Verus panic-freedom)", "8 C13"),
  "C14": (True, "proof",
-         "Verus proves OtlpInner::emit has exactly one effect at every exit: Send(metrics) iff configured and accepted, else traces, else logs, else discard+1; encoder decision prefixes (traces: span kind and range extent; logs: always; metrics: one direction); the discard Counter increments atomically (one fetch_add); KindFilter::matches and the Kind parser",
+         "Verus proves OtlpInner::emit has exactly one effect at every exit: Send(metrics) iff configured and accepted, else traces, else logs, else discard+1; encoder decision prefixes (traces: span kind and range extent; logs: always; metrics: one direction); the discard Counter increments atomically (one fetch_add); KindFilter::matches and the Kind parser; metric data shape (sum / count / gauge, monotonic flag, temporality from the extent); FromValue for Kind (typed, else the text of ANY value)",
          "trusted: Sender::send / counters as logged effects; LoggedAtomic shims (each std atomic op = one event)",
          "contract-based deductive verification (Verus ghost effect trace)", "8 C14"),
  "C18": (True, "proof",
-         "Verus proves on the real traceparent functions: incoming_traceparent case split (sampler called exactly once iff new root and flags sampled; never for child / continued traces; flags inherited), filters, ctxt open/enter/exit swap contract, with_current id synthesis, push/current; plus the stack lemma; Kani: every forwarding / erased context dispatches open_disabled to open_disabled (a rejected root pushes nothing)",
+         "Verus proves on the real traceparent functions: incoming_traceparent case split (sampler called exactly once iff new root and flags sampled; never for child / continued traces; flags inherited), filters, ctxt open/enter/exit swap contract, with_current id synthesis, push/current; plus the stack lemma; Kani: every forwarding / erased context dispatches open_disabled to open_disabled (a rejected root pushes nothing); an added read of the thread-local (R15 argument injected everywhere) and a comparison of traceparents (real derive kept) are judged, not unsupported",
          "trusted: the two thread-local accessor functions (R15), Props/Ctxt mirrors; trees/threads/futures follow from step contracts + C03 lemma",
          "contract-based deductive verification (Verus with ghost thread-local slot and sampler call log)", "8 C18"),
 
  "C09": (True, "proof",
-         "Verus proves send keeps |pending| <= capacity for every capacity >= 1 (full => whole queue cleared, item kept, truncation counter +1; straight-line under the lock, never waits), try_send / send_or_wait either enqueue exactly once or hand the item back; and that the emitters' Channel impls (Vec, file EventBatch under its representation invariant, OTLP Channel) meet the same trait contract; the tokio wait closure waits the remaining time it is called with (parameters bound through the real closure parameter list); the three Counter types: increment_by = exactly one fetch_add(by) (effect log), n complete increments add n",
+         "Verus proves send keeps |pending| <= capacity for every capacity >= 1 (full => whole queue cleared, item kept, truncation counter +1; straight-line under the lock, never waits), try_send / send_or_wait either enqueue exactly once or hand the item back; and that the emitters' Channel impls (Vec, file EventBatch under its representation invariant, OTLP Channel) meet the same trait contract; the tokio wait closure waits the remaining time it is called with (parameters bound through the real closure parameter list); the three Counter types: increment_by = exactly one fetch_add(by) (effect log), n complete increments add n; FileSetInner::emit and OtlpInner::emit perform exactly one plain Sender::send (never a blocking variant)",
          "trusted: Mutex (R4); EventBatch push needs the physical fact that buffer lengths sum below usize::MAX; real-time bounds not claimed",
          "contract-based deductive verification (Verus)", "8 C09"),
  "C10": (True, "proof",
-         "Verus proves ActiveFile::write_event against a write-fault model (Err => some prefix was appended) incl. the chunk invariant (a complete event only follows start, a complete event or a separator; partial chunks only where a write failed and imply needs_recovery), try_open_reuse/create, the write loop and tail of Worker::on_batch (retry carries the batch with its cursor at the failed event; Ok only after flush and sync_all), and that every queued event ends with the separator; StdFilesystem call shapes against a ghost mirror of std::fs (reuse opens append-only, create is exclusive + append, parent directory opened read-only and sync_all'ed); ActiveFileSet::read leaves the list sorted newest-first so that retention deletes the oldest",
+         "Verus proves ActiveFile::write_event against a write-fault model (Err => some prefix was appended) incl. the chunk invariant (a complete event only follows start, a complete event or a separator; partial chunks only where a write failed and imply needs_recovery), try_open_reuse/create, the write loop and tail of Worker::on_batch (retry carries the batch with its cursor at the failed event; Ok only after flush and sync_all), and that every queued event ends with the separator; StdFilesystem call shapes against a ghost mirror of std::fs (reuse opens append-only, create is exclusive + append, parent directory opened read-only and sync_all'ed); ActiveFileSet::read leaves the list sorted newest-first so that retention deletes the oldest; try_open_reuse / try_open_create return Ok only if the parent directory was synced after the open and propagate a sync error (F17: failed on the pinned tree for reuse, repaired)",
          "single-operation write faults; crash points / loss of unsynced suffixes / multi-restart histories are not applicable (need ghost file-system state behind &self); File/Filesystem traits are fault-model mirrors",
          "contract-based deductive verification (Verus fault-model contracts)", "8 C10"),
  "C11": (True, "proof",
-         "Verus proves apply_retention total for every max_files >= 0 (kept list is a prefix, deletions are exactly the tail in pop order), is_file_set_member == the name shape prefix.a.b.c.ext with theorems that sets with different prefixes never share a name, the roll predicate, rolling_millis panic-free and < one period, EventBatch bookkeeping; dir_prefix_ext (prefix = file_stem, ext = extension or log, dir = parent); file_size_bytes == bytes appended (separator included) so the roll predicate reads the true size; read sorts newest-first",
+         "Verus proves apply_retention total for every max_files >= 0 (kept list is a prefix, deletions are exactly the tail in pop order), is_file_set_member == the name shape prefix.a.b.c.ext with theorems that sets with different prefixes never share a name, the roll predicate, rolling_millis panic-free and < one period, EventBatch bookkeeping; dir_prefix_ext (prefix = file_stem, ext = extension or log, dir = parent); file_size_bytes == bytes appended (separator included) so the roll predicate reads the true size; read sorts newest-first; read_file_name_ts returns the 4th dot-separated field from the END (dotted prefixes)",
          "trusted: format!-built names, read's directory iteration, sort_by by its std contract relative to the comparator closure, Path/OsStr accessors as distinct uninterpreted functions; directory-level statements (files on disk vs. the worker's belief) not reachable; read_file_name_ts (str::rsplit) trusted",
          "contract-based deductive verification (Verus)", "8 C11"),
 
  "C17": (True, "proof",
-         "Verus proves MinLevelFilter::matches == (pulled level, else default, else L::default) >= min; the lenient level parser Ok <=> lenient_match for inputs of any length; and for MinLevelPathMap the representation invariant, lookup == filter of the longest registered prefix at :: boundaries (else default, else accept), and insert == view.insert(path, filter) INCLUDING the frame (no other path changes) through the real looping &mut cursor, with lemmas for registration order, repeated registration and sibling prefixes; Value::parse, which Level::from_value's text fallback goes through",
+         "Verus proves MinLevelFilter::matches == (pulled level, else default, else L::default) >= min; the lenient level parser Ok <=> lenient_match for inputs of any length; and for MinLevelPathMap the representation invariant, lookup == filter of the longest registered prefix at :: boundaries (else default, else accept), and insert == view.insert(path, filter) INCLUDING the frame (no other path changes) through the real looping &mut cursor, with lemmas for registration order, repeated registration and sibling prefixes; Value::parse, which Level::from_value's text fallback goes through; (lookup loop presented to Verus through rule G3 so that a `continue` is judged)",
          "trusted: Path::segments as a Vec of segments, binary_search_by_key by its std contract on a sorted slice, Str/Event/Props mirrors, lawful Ord",
          "contract-based deductive verification (Verus, wand-style prophecy invariant)", "8 C17"),
- "C05": (True, "proof", "Kani proves each SpanGuard operation contract from an arbitrary abstract pre-state (induction over operation sequences), loop-free over full-domain symbolic inputs, on the real crate, plus Timer::start/extent; Verus proves the completion paths (completion::Default builders and complete incl. the panicking branch, the three macro completions): exactly one emit_core::emit with the runtime's emitter and ctxt, lvl/err ahead of the span's props, template override; Span::for_each order (kind, name, then props); FirstDefined::matches (a rejecting call-site filter disables the span)", "trusted: CBMC/Kani; panic unwinding not modelled (panic=abort); macro expansion of #[span] not covered", "contract-based deductive verification (Kani per-operation contracts from symbolic pre-states; Verus for completion event shape)", "8 C05"),
+ "C05": (True, "proof", "Kani proves each SpanGuard operation contract from an arbitrary abstract pre-state (induction over operation sequences), loop-free over full-domain symbolic inputs, on the real crate, plus Timer::start/extent; Verus proves the completion paths (completion::Default builders and complete incl. the panicking branch, the three macro completions): exactly one emit_core::emit with the runtime's emitter and ctxt, lvl/err ahead of the span's props, template override; Span::for_each order (kind, name, then props); FirstDefined::matches (a rejecting call-site filter disables the span); __private_begin_span / __PrivateBeginSpanFilter (what the begin filter is shown)", "trusted: CBMC/Kani; panic unwinding not modelled (panic=abort); macro expansion of #[span] not covered", "contract-based deductive verification (Kani per-operation contracts from symbolic pre-states; Verus for completion event shape)", "8 C05"),
  "C16": (True, "proof",
          "Verus proves on the real Template::eq (extracted each run, no statement replaced) that it is total and returns exactly equality of the canonical token sequences, "
-         "and on the real Part::write / Render::write the exact sequence of writer calls (text verbatim; hole = first-wins property value through the formatter if any, else {label}; stop at first error)",
+         "and on the real Part::write / Render::write the exact sequence of writer calls (text verbatim; hole = first-wins property value through the formatter if any, else {label}; stop at first error); the four forwarding members of impl Write for &mut W run the inner writer's own method (removal fails a wrapper's postcondition); Render::as_literal / with_props / to_value; Part constructors and formatter hooks; Template::parts iterator",
          "trusted: Str/Formatter/Value mirrors (uninterpreted views), Template::as_literal mirror (slice pattern rejected by Verus), Write/Props trait mirrors, cmp::min spec; macro-generated templates not covered",
          "contract-based deductive verification (Verus on mechanically extracted functions)", "8 C16"),
  "C15": (True, "proof",
